@@ -51,12 +51,13 @@ class CombineOutputs(Operation):
             relative_to_target = pathlib.Path(
                 os.path.relpath(dep_dir, copy_into.parent)
             )
-            if copy_into.exists():
-                if copy_into.is_symlink():
-                    copy_into.unlink()
-                else:
-                    # Unexpected - it should be a symlink.
-                    raise CombineOutputFileConflict(output_file=str(copy_into))
+            # N.B. `exists()` is `False` for a symlink whose target is gone
+            # (e.g., the version it pointed to was removed by `cond gc`).
+            if copy_into.is_symlink():
+                copy_into.unlink()
+            elif copy_into.exists():
+                # Unexpected - it should be a symlink.
+                raise CombineOutputFileConflict(output_file=str(copy_into))
             # The base data may be large, so we use symlinks to avoid copying.
             copy_into.symlink_to(relative_to_target)
 
